@@ -52,6 +52,7 @@ type Knobs struct {
 	PVariadic   int
 	PFault      int // function gets a fault plan (needs PErr or panics)
 	PPanic      int // a fault is a panic rather than an error
+	PFaultKind  int // a faulty function fails with an unusual value (error wrapping a foreign dig.Error; panic with an error / string value)
 	PDecoSelf   int // decorator consumes the key it decorates
 	PDecoGroup  int // decorator targets a group
 	PDecoMulti  int // decorator decorates a second key
@@ -411,6 +412,10 @@ func (g *gen) faults(f *Fn) {
 			o = FaultOK
 		}
 		f.Faults = append(f.Faults, o)
+	}
+	if g.pct(g.k.PFaultKind, "faultkind") {
+		f.EK = g.pick(2, "ek")
+		f.PK = g.pick(5, "pk")
 	}
 }
 
